@@ -12,7 +12,9 @@ EXPLANATION = (
     "one's edits while both are counted). R3 the run that announces (--json) and the run that applies (-U) compute the same findings: "
     "code reachable from the per-file producers reads the output options only through OutputArgs::needs_interactive, whose result may "
     "only choose the diff route / CombinedScan::scan's separate_fix flag, and the rule vector selected for a file reaches "
-    "CombinedScan::new without being filtered, truncated or reordered."
+    "CombinedScan::new without being filtered, truncated or reordered. R1 further: the splice base (Diffs.old_source) is the document text the "
+    "ranges refer to, not a node's text; overlap filters use the half-open boundary (start < previous end); and scan.rs hands every match "
+    "whose rule has a fixer on to the processor (no pre-filtering before the user accepted anything)."
 )
 NOT_DECIDED = "Byte-level equality of the written file with the spliced text; that files without accepted edits are untouched as bytes (follows from rewrite_action's early return, checked structurally only)."
 TRUSTED = ["std::fs::write replaces the file content atomically enough for a single-threaded consumer", "nightly rustc MIR"]
@@ -143,6 +145,36 @@ def run(ctx):
             detail = "each iteration over the diffs either pushes an InteractiveDiff or leaves by error" if ok else "an iteration can go back to the loop head without pushing: some announced edits never reach the writer"
         ctx.ob("R1", "payload completeness in %s" % f.name, ok, detail, where=f.loc())
     ctx.floor("R1", "interactive diff payload builders", n_pc, 2)
+    # upstream of the processor: scan.rs turns the fixable matches into Diffs; the only match it may leave out is one whose rule
+    # has no fixer. (Deciding overlap here — on node ranges, before the user accepted anything — drops edits that --json announces
+    # and that the accept loop, which compares the EDIT ranges of ACCEPTED diffs, would have applied.)
+    md = ctx.anchor("R1", r"^ast_grep::scan::match_rule_diff_on_file$")
+    if md:
+        from ..query import closure_consumer
+        ok, detail = False, "no closure calling Diff::generate found"
+        for g in prog.closures_of(md):
+            gen = [c for c in g.calls if c.best.endswith("Diff::<'n>::generate") and c.bb in g.live_blocks]
+            if not gen:
+                continue
+            fx = [c for c in g.calls if c.name == "as_ref" and any("fixer" in field_path(o.proj) for ff, o in ultimate_roots(prog, g, c.args[0], TRANSPARENT | {"deref"}))]
+            cons = closure_consumer(prog, g)
+            if not fx:
+                ok, detail = False, "the test for a missing fixer was not found"
+                break
+            arms = option_arms(g, fx[0])
+            nones = [b for b in g.live_blocks if any(st[0] == "A" and st[1][0] == 0 and not st[1][1] and st[2][0] == "agg" and st[2][1].get("variant") == "None" for st in g.blocks[b]["s"])]
+            nones += [c.bb for c in g.calls if c.name == "from_residual" and c.dest and c.dest[0] == 0]
+            # every way of yielding None lies on the no-fixer arm; on the fixer arm every path reaches Diff::generate
+            none_region = set()
+            for nb in arms["none"]:
+                none_region |= g.reachable_from(nb, stop=arms["some"])
+            stray = [b for b in nones if b not in none_region]
+            skip = any(path_avoiding(g, sb, [c.bb for c in gen], list(g.return_blocks())) for sb in arms["some"])
+            ok = bool(arms["some"]) and not stray and not skip
+            detail = ("a match is left out only when its rule has no fixer; consumer: %s" % (cons[1].name if cons else "?")) if ok else \
+                "a fixable match can be left out of the payload (None returned / Diff::generate skipped on the fixer arm, bb%s): the edit is announced by --json but never offered to the accept loop" % (stray or "path")
+            break
+        ctx.ob("R1", "match_rule_diff_on_file keeps every fixable match", ok, detail, where=md.loc())
     # the accept loop drops a diff that starts before the end of the last accepted one: the list it receives must be in
     # ascending order. Fix diffs are produced in document order by the scan; whatever is merged into them afterwards
     # (unused-suppression edits) must be followed by a sort on every path.
